@@ -97,6 +97,21 @@ func init() {
 		}
 		return tuple{&rv, nilErr}
 	}
+	// net/http's package initialiser is not run (see skipInit), so the one global that (*Request).AddCookie
+	// needs -- cookieNameSanitizer = strings.NewReplacer("\n", "-", "\r", "-") -- is modelled here
+	ext("net/http.sanitizeCookieName", func(fr *frame, a []value) value {
+		bs := toBytes(a[0])
+		if !allConcrete(bs) {
+			unsupported("net/http.sanitizeCookieName on a symbolic cookie name")
+		}
+		out := concreteBytes(bs)
+		for i, c := range out {
+			if c == '\n' || c == '\r' {
+				out[i] = '-'
+			}
+		}
+		return string(out)
+	})
 	ext("net/http.NewRequest", func(fr *frame, a []value) value {
 		return newReq(fr, nil, a[0], a[1], a[2])
 	})
